@@ -68,7 +68,7 @@ var logPrefixes = []string{
 // path generalisation of profile / name / target.
 var neutralDirs = []string{"/opt", "/srv/www", "/etc", "/var/cache/foo", "/media/disk", "/mnt/q", "/boot"}
 var neutralWords = []string{"foo", "Bar", "x-y_z", "lib_so_q", "data", "K", "zz9", "mm", "conf.d"}
-var hostileBits = []string{"#101", "#1234", "/./", " ", "  ", "   ", "\\", "=", "#", ",", "é", "日本", " = ", "a b", "==", "#!", "\"", "\t", "'", ":", ";", "(", ")"}
+var hostileBits = []string{" $HOME ", "$1 x", "${x} y", "#101", "#1234", "/./", " ", "  ", "   ", "\\", "=", "#", ",", "é", "日本", " = ", "a b", "==", "#!", "\"", "\t", "'", ":", ";", "(", ")"}
 
 func genNeutralPath(t *rapid.T, label string, hostile bool) string {
 	p := pick(t, label+"dir", neutralDirs)
